@@ -14,7 +14,7 @@ def cvec(v): return '(' + clist([cC(complex(x)) for x in np.asarray(v).reshape(-
 def cmat(M): return '(' + clist([cvec(r) for r in np.asarray(M)]) + ' : mat)'
 
 def rand_qh(of, rng, rs, n):
-    kind = rng.choice(['conserving_real', 'conserving_complex', 'spin_block', 'diagonal', 'degenerate', 'pairing_real', 'pairing_complex', 'bcs_diagonal', 'pairing_sparse'])
+    kind = rng.choice(['conserving_real', 'conserving_complex', 'spin_block', 'half_block', 'chain', 'sign_sparse', 'diagonal', 'degenerate', 'pairing_real', 'pairing_complex', 'bcs_diagonal', 'pairing_sparse'])
     M = np.zeros((n, n), dtype=complex); D = np.zeros((n, n), dtype=complex)
     def herm(cplx): 
         A = rs.randn(n, n) + (1j * rs.randn(n, n) if cplx else 0); return (A + A.conj().T) / 2
@@ -27,6 +27,24 @@ def rand_qh(of, rng, rs, n):
         for p in range(n):
             for q in range(n):
                 if (p + q) % 2: M[p, q] = 0
+    elif kind == 'half_block':
+        # block diagonal in (first half, second half) - the structure the implementation's spin-block shortcut looks for
+        M = herm(rng.random() < 0.5).astype(complex); h = n // 2
+        M[:h, h:] = 0; M[h:, :h] = 0
+    elif kind == 'chain':
+        # tight-binding chain / ring with hopping of either sign, optional staggered on-site energies
+        t = rng.choice([-1.0, -0.5, 1.0, 2.0, -2.0])
+        for p in range(n - 1): M[p, p + 1] = M[p + 1, p] = t
+        if n > 2 and rng.random() < 0.5: M[0, n - 1] = M[n - 1, 0] = t
+        if rng.random() < 0.4:
+            for p in range(n): M[p, p] = rng.choice([0.0, 0.5, -0.5]) * (-1) ** p
+    elif kind == 'sign_sparse':
+        # few off-diagonal entries, all of one sign (so that max and max-of-abs differ), many exact zeros
+        sg = rng.choice([-1.0, 1.0])
+        for _ in range(rng.randint(1, n)):
+            p, q = rng.sample(range(n), 2) if n >= 2 else (0, 0)
+            if p != q: M[p, q] = M[q, p] = sg * rng.choice([0.5, 1.0, 1.5])
+        for p in range(n): M[p, p] = rng.choice([0.0, 0.0, 1.0, -1.0])
     elif kind == 'diagonal': M = np.diag([float(rng.choice([-2, -1, -0.5, 0.5, 1, 3])) for _ in range(n)]).astype(complex)
     elif kind == 'degenerate': M = np.diag([float(rng.choice([-1, 1])) for _ in range(n)]).astype(complex)
     elif kind == 'pairing_real': M = herm(False).astype(complex); D = anti(False).astype(complex)
